@@ -494,7 +494,8 @@ def oracle_value_history(ctx, n, init_strings, state, ops, events=None):
 
 def oracle_qucc_history(ctx, L, exc, plist):
     """one qUCC object asked for several parameter vectors; the SAME parameter array is overwritten in place between calls;
-    every matrix handed out must equal the reference for the parameters of ITS call, also after the later calls"""
+    every matrix handed out must equal the reference for the parameters of ITS call, also after the later calls; the matrix of
+    every call is unitary, commutes with the particle number and equals the matrix of a fresh object"""
     import qib
     ans = qib.algorithms.vqe.ansatz.qUCC(mk_field(L), excitations=exc, embedding="jordan_wigner")
     inp = {"kind": "qucc-history", "L": L, "exc": exc, "plist": [[float(p) for p in ps] for ps in plist]}
@@ -504,30 +505,34 @@ def oracle_qucc_history(ctx, L, exc, plist):
     for k, ps in enumerate(plist):
         buf[:] = ps
         held.append((ans.as_matrix(buf), ref_qucc(L, exc, ps), k))
+        bad = False
         for U, R, k0 in held:
             dev = np.abs(U.toarray() - R).max()
             if dev > 1e-8:
                 ctx.fail("history:qUCC(%s): %s" % (exc, "matrix != prod exp(T - T^dagger) for the parameters of this call (same array object as before)"
                                                    if k0 == k else "matrix handed out earlier was changed by a later call"),
                          dict(inp, plist=inp["plist"][:k + 1], obtained_at_call=k0), None, "%.3g" % dev)
-                return
+                bad = True
+                break
         # the property itself on the matrix of THIS call (whatever the object was asked before), and a fresh object
         Uk = held[-1][0].toarray()
         here = dict(inp, plist=inp["plist"][:k + 1], obtained_at_call=k)
         dev = np.abs(Uk @ Uk.conj().T - np.eye(2 ** L)).max()
         if dev > 1e-8:
             ctx.fail("history:qUCC(%s): matrix of a later call on one ansatz object not unitary" % exc, here, "||U U^dag - 1|| = 0", "%.3g" % dev)
-            return
+            bad = True
         dev = np.abs(Uk @ N - N @ Uk).max()
         if dev > 1e-8:
             ctx.fail("history:qUCC(%s): matrix of a later call on one ansatz object does not commute with the particle number" % exc, here,
                      "[U, N] = 0", "%.3g" % dev)
-            return
+            bad = True
         Uf = qib.algorithms.vqe.ansatz.qUCC(mk_field(L), excitations=exc, embedding="jordan_wigner").as_matrix(np.array(ps, dtype=float)).toarray()
         dev = np.abs(Uk - Uf).max()
         if dev > 1e-10:
             ctx.fail("history:qUCC(%s): a re-used ansatz object gives another matrix than a fresh object for the same parameters" % exc, here,
                      "same matrix", "%.3g" % dev)
+            bad = True
+        if bad:
             return
 
 
